@@ -223,6 +223,15 @@ def gen_probs(rng, n, kind):
 PROB_KINDS = ("dirichlet", "zeros", "dirichlet", "uniform", "onehot", "dirichlet")
 
 
+def _favour_last(p, form):
+    """In place: make the last class the most probable one (logits or normalised probs)."""
+    if form == "logits":
+        p[-1] = np.float32(np.max(p[np.isfinite(p)]) + 3.0)
+    else:
+        p *= np.float32(0.5)
+        p[-1] += np.float32(1.0) - p.sum(dtype=np.float32)
+
+
 def ref_probs(form, param):
     """Definition: logits are unnormalised log-probabilities, probs are probabilities."""
     from vlib.c15_helpers import log_softmax64
@@ -314,6 +323,7 @@ def u_categorical(ctx):
             kinds = ["gauss", "peaked", "uniform"] if form == "logits" else ["dirichlet", "uniform", "zeros"]
             klist = [kinds[i % 3] for i in range(Bw)]
             P = np.stack([(gen_logits if form == "logits" else gen_probs)(ctx.rng, n, k) for k in klist])
+            _favour_last(P[0], form)  # every run has a law whose most probable class is the last one
             try:
                 f = eqx.filter_jit(jax.vmap(make(form, n, 4096)))
                 out = jax.tree.map(np.asarray, f(jnp.asarray(P), jr.split(ctx.key(500 + ki), Bw)))
@@ -604,6 +614,9 @@ def u_multicategorical(ctx, which):
                 continue
             Bw = 3
             P = np.stack([gen(dims, form, 0 if i == 0 else 5) for i in range(Bw)])
+            big = int(np.argmax(dims))
+            a = int(np.sum(dims[:big]))
+            _favour_last(P[0][a:a + dims[big]], form.split("-")[1])
             ki += 1
             out, how = run_batched(form, dims, 4096, P, ctx.key(ki))
             if out is None:
@@ -625,13 +638,13 @@ Z_GRID, Z_FULL, M_GRID = 8.0, 7.0, 961
 R_MIN = 2000.0  # float32 ulps per standard deviation required before mass / KS / quadrature are judged
 
 
-def normal_geom(loc, sc):
+def normal_geom(loc, sc, m=M_GRID):
     """Quadrature nodes for Normal(loc, sc): y = x, uniform over +-8 sigma."""
     from vlib.c15_helpers import EPS32, normal_logpdf64
 
     loc, sc = float(loc), float(sc)
-    xg = loc + sc * np.linspace(-Z_GRID, Z_GRID, M_GRID)
-    return dict(xg=xg, h=float(xg[1] - xg[0]), yg=xg.astype(np.float32), jac=np.ones(M_GRID), to_x=lambda y: np.asarray(y, np.float64),
+    xg = loc + sc * np.linspace(-Z_GRID, Z_GRID, m)
+    return dict(xg=xg, h=float(xg[1] - xg[0]), yg=xg.astype(np.float32), jac=np.ones(m), to_x=lambda y: np.asarray(y, np.float64),
                 lo=None, hi=None, full=True, R=sc / (EPS32 * (abs(loc) + 3 * sc)),
                 lp_ref=lambda y: normal_logpdf64(y, loc, sc), ent_ref=0.5 * np.log(2 * np.pi * np.e * sc * sc),
                 slp_tol=lambda y: 1.0 * np.abs((np.asarray(y, np.float64) - loc) / sc) * EPS32 * np.maximum(np.abs(y), 1e-30) / sc)
@@ -647,7 +660,7 @@ def squash_region(lo, hi):
     return float(logit64(1 - delta)), kappa
 
 
-def squashed_geom(loc, sc, lo, hi):
+def squashed_geom(loc, sc, lo, hi, m=M_GRID):
     """Nodes for a law on (lo, hi): harness's own change of variables y = lo + (hi-lo)*sigmoid(x), x uniform
     over the part of loc +- 8 sc that float32 resolves. The weights dy/dx belong to this map, so the
     quadrature is exact for any density on (lo, hi); only the integrand comes from the code under test."""
@@ -659,7 +672,7 @@ def squashed_geom(loc, sc, lo, hi):
     a, b = max(loc - Z_GRID * sc, -X), min(loc + Z_GRID * sc, X)
     if not a < b:  # the law lives entirely in the saturated region: a token grid around the centre of (lo, hi)
         a, b = -1.0, 1.0
-    xg = np.linspace(a, b, M_GRID)
+    xg = np.linspace(a, b, m)
     s = sigmoid64(xg)
     full = (abs(loc) + Z_FULL * sc) <= X
     s3 = sigmoid64(np.array([loc - 3 * sc, loc + 3 * sc]))
@@ -998,7 +1011,7 @@ G2 = 201   # nodes per axis of the 2-D quadrature grid
 N_PTS = 256
 
 
-def judge_nd(ctx, cls, comp_cls, desc, geoms, o, pts, grids2=None, entropy_error=None):
+def judge_nd(ctx, cls, desc, geoms, o, pts, grids2=None, entropy_error=None):
     """C15 relations for a d-dimensional product law. geoms: per-dimension 1-D geometry (nodes/weights and,
     for the plain normal, the density formula); o: real outputs (see make_nd); pts (P,d) sample points."""
     from vlib.c15_helpers import ALPHA, EPS32, cumtrapz, ks_against_cdf, note_max, note_min, prob_exp_mismatch, trapz
@@ -1071,10 +1084,11 @@ def judge_nd(ctx, cls, comp_cls, desc, geoms, o, pts, grids2=None, entropy_error
     if o.get("ent") is not None:
         ent = float(o["ent"])
         ctx.monitor("entropy_defined_cases")
-        hs = float(np.sum(np.asarray(o["comp_ent"], np.float64)))
-        ctx.monitor("entropy_vs_components")
-        if not abs(ent - hs) <= 2e-5 * D + 1e-5 * abs(hs):
-            bad("entropy-not-sum-of-components", {"entropy": ent, "sum_of_component_entropies": hs})
+        if o.get("comp_ent") is not None:
+            hs = float(np.sum(np.asarray(o["comp_ent"], np.float64)))
+            ctx.monitor("entropy_vs_components")
+            if not abs(ent - hs) <= 2e-5 * D + 1e-5 * abs(hs):
+                bad("entropy-not-sum-of-components", {"entropy": ent, "sum_of_component_entropies": hs})
         if geoms[0]["ent_ref"] is not None:
             hr = float(np.sum([g["ent_ref"] for g in geoms]))
             if not abs(ent - hr) <= 2e-5 * D + 1e-5 * abs(hr):
@@ -1175,15 +1189,16 @@ def make_nd(build, comp, D, s, K, ent_state, with_grid):
             out["lpj"], out["prj"] = jax.vmap(d.log_prob)(jg), jax.vmap(d.prob)(jg)
         try:
             out["ent"] = d.entropy()
-            out["comp_ent"] = jnp.stack([c.entropy() for c in comps])
             ent_state["err"] = None
-        except NotImplementedError as e:
-            out.pop("ent", None)
+        except NotImplementedError as e:  # the code declares the entropy undefined
             ent_state["err"] = str(e)[:120]
         except Exception as e:
-            out.pop("ent", None)
             ent_state["err"] = None
             ent_state["other"] = f"{type(e).__name__}: {str(e)[:200]}"
+        try:
+            out["comp_ent"] = jnp.stack([c.entropy() for c in comps])
+        except Exception:  # component entropies undefined: the sum-of-components relation is not judged
+            pass
         return out
     return one
 
@@ -1232,19 +1247,14 @@ def u_mvn(ctx):
     comp = lambda l, s, hi, lo, i: Normal(l, s)  # noqa: E731
 
     def geoms_for(prm, m=M_GRID):
-        global M_GRID
-        old, M_GRID = M_GRID, m
-        try:
-            return [_with_pt_normal(normal_geom(l, s), l, s) for l, s in prm]
-        finally:
-            M_GRID = old
+        return [_with_pt_normal(normal_geom(l, s, m), l, s) for l, s in prm]
 
     def judge(D, prm, geoms, geoms2, o, pts, mode):
         desc = {"class": "MultivariateNormalDiag", "d": D, "loc": [float(p[0]) for p in prm], "scale": [float(p[1]) for p in prm], "mode": mode}
         nt = all(g["R"] >= R_MIN for g in geoms)
         ctx.case(desc, nontrivial=nt, cls=f"MultivariateNormalDiag/d{D}/{'resolved' if nt else 'coarse'}/{mode}")
         ctx.monitor("mvn_cases")
-        judge_nd(ctx, "mvn", "normal", desc, geoms, o, pts, grids2=geoms2)
+        judge_nd(ctx, "mvn", desc, geoms, o, pts, grids2=geoms2)
 
     B = 8
     for D in (2, 1, 3, 6):
@@ -1315,12 +1325,7 @@ def u_squashedmvn(ctx):
                 lambda l, s, hi, lo, i: SquashedNormal(l, s, high=jnp.array(1.0), low=jnp.array(-1.0)))
 
     def geoms_for(prm, bnd, m=M_GRID):
-        global M_GRID
-        old, M_GRID = M_GRID, m
-        try:
-            return [_with_pt_squashed(squashed_geom(l, s, lo, hi), l, s, lo, hi) for (l, s), (lo, hi) in zip(prm, bnd)]
-        finally:
-            M_GRID = old
+        return [_with_pt_squashed(squashed_geom(l, s, lo, hi, m), l, s, lo, hi) for (l, s), (lo, hi) in zip(prm, bnd)]
 
     def gen_case(D, bform, i):
         if bform == "vector":
@@ -1342,7 +1347,7 @@ def u_squashedmvn(ctx):
         ctx.monitor("squashedmvn_cases")
         if "other" in ent_state:
             ctx.violation("squashedmvn-entropy-raises", {"case": desc, "error": ent_state.pop("other")})
-        judge_nd(ctx, "squashedmvn", "squashednormal", desc, geoms, o, pts, grids2=geoms2, entropy_error=ent_state.get("err"))
+        judge_nd(ctx, "squashedmvn", desc, geoms, o, pts, grids2=geoms2, entropy_error=ent_state.get("err"))
 
     def arr(bform, bnd, k):
         return np.float32(bnd[0][k]) if bform != "vector" else np.array([b[k] for b in bnd], np.float32)
